@@ -604,6 +604,7 @@ class ScipyOptimizeDriver(Driver):
                 break
 
             self._con_cache = self.get_constraint_values()
+            self._con_cache_x = np.array(x_new, copy=True)
 
         except Exception:
             if self._exc_info is None:  # only record the first one
@@ -638,6 +639,12 @@ class ScipyOptimizeDriver(Driver):
         if self.options['optimizer'] in ['differential_evolution', 'COBYQA']:
             # the DE opt will not have called this, so we do it here to update DV/resp values
             self._objfunc(x_new)
+        else:
+            # trust-constr evaluates the constraints at a new point before (or without) the
+            # objective, so the cached values may belong to another design point.
+            cache_x = getattr(self, '_con_cache_x', None)
+            if cache_x is None or not np.array_equal(cache_x, x_new):
+                self._objfunc(x_new)
 
         return self._con_cache[name][idx]
 
@@ -707,9 +714,16 @@ class ScipyOptimizeDriver(Driver):
         model = prob.model
 
         try:
+            # The derivatives are those of the model's current state: make sure that state is
+            # x_new (trust-constr asks for the gradient at a new point before the objective).
+            cache_x = getattr(self, '_con_cache_x', None)
+            if cache_x is not None and not np.array_equal(cache_x, x_new):
+                self._objfunc(x_new)
+
             grad = self._compute_totals(of=self._obj_and_nlcons, wrt=self._dvlist,
                                         return_format=self._total_jac_format)
             self._grad_cache = grad
+            self._grad_cache_x = np.array(x_new, copy=True)
 
             # First time through, check for zero row/col.
             if self._check_jac and self._total_jac is not None:
@@ -727,7 +741,9 @@ class ScipyOptimizeDriver(Driver):
                 self._exc_info = sys.exc_info()
             return np.array([[]])
 
-        return grad[0, :]
+        # return a copy: the cached array is overwritten in place by the next call, and
+        # trust-constr keeps the previous gradient to form its quasi-Newton update
+        return grad[0, :].copy()
 
     def _congradfunc(self, x_new, name, dbl, idx):
         """
@@ -764,6 +780,15 @@ class ScipyOptimizeDriver(Driver):
                 # _gradfunc has not been called, meaning gradients are not
                 # used for the objective but are needed for the constraints
                 self._gradfunc(x_new)
+            elif dbl is None:
+                # new-style constraints (trust-constr) may be linearized at a point where the
+                # objective gradient has not been evaluated, so the cache can be stale
+                cache_x = getattr(self, '_grad_cache_x', None)
+                if cache_x is None or not np.array_equal(cache_x, x_new):
+                    con_x = getattr(self, '_con_cache_x', None)
+                    if con_x is None or not np.array_equal(con_x, x_new):
+                        self._objfunc(x_new)
+                    self._gradfunc(x_new)
             grad = self._grad_cache
 
         grad_idx = self._con_idx[name] + idx
